@@ -93,30 +93,45 @@ From Pi2 Require Import Py.MatchFacts.
 
 Ltac prim_unfold := unfold unwrap_imp, unwrap_app, decon_evar, decon_svar, decon_sym, decon_ex, decon_mu.
 
+Ltac ev := lazy beta iota zeta delta [bind fst snd negb].
+Ltac match_other IH n i :=
+  cbn [match_single]; change (f_match_simplify fc) with true; cbn [andb is_inst];
+  prim_unfold;
+  rewrite ?hnf_noninst by reflexivity;
+  destruct (hnf fc n i) as [hi|] eqn:Hhi;
+  [ destruct hi | ];
+  (* walk down the chain of tests: evaluate, open the next shared continuation, evaluate ... *)
+  repeat (ev; autounfold with pysrc; prim_unfold; rewrite ?hnf_noninst by reflexivity; rewrite ?Hhi);
+  ev;
+  repeat match goal with
+         | |- context [src_match_single ?k ?a ?b ?c] => rewrite (IH a b c)
+         | |- context [N.eqb ?a ?b] => destruct (N.eqb a b); ev
+         | |- context [match_single fc ?k ?a ?b ?c] => destruct (match_single fc k a b c) as [[?|]|]; ev
+         end; reflexivity.
+
 Theorem src_match_single_eq n : forall p i ret, src_match_single n p i ret = match_single fc n p i ret.
 Proof.
   induction n as [|n IH]; intros p i ret; [reflexivity|].
   cbn [src_match_single]. rewrite truthy_dict.
+  (* the nine classes other than MetaVar / Instantiate: the primitives look at the head of the pattern and at the
+     head-normal form of the instance *)
   destruct p.
-  8: { (* MetaVar *)
+  1: match_other IH n i.
+  1: match_other IH n i.
+  1: match_other IH n i.
+  1: match_other IH n i.
+  1: match_other IH n i.
+  1: match_other IH n i.
+  1: match_other IH n i.
+  2: match_other IH n i.
+  2: match_other IH n i.
+  - (* MetaVar *)
     cbv zeta. cbn [match_single]. rewrite amem_alookup. destruct (alookup id ret) eqn:E; cbn [bind].
-    - destruct (py_eq fc n p i) as [[|]|]; reflexivity.
-    - rewrite (aset_fresh _ _ _ E). reflexivity. }
-  10: { (* Instantiate *)
+    + destruct (py_eq fc n p i) as [[|]|]; reflexivity.
+    + rewrite (aset_fresh _ _ _ E). reflexivity.
+  - (* Instantiate *)
     cbv zeta. cbn [match_single]. change (f_match_simplify fc) with true. cbn [andb is_inst simplify].
-    rewrite src_instantiate_eq. destruct (py_inst fc n p d); cbn [bind]; [apply IH|reflexivity]. }
-  (* the other nine classes: the primitives look at the head of the (already notation-free headed) pattern and at the
-     head-normal form of the instance; call-by-need evaluation keeps the shared continuations shared *)
-  all: cbn [match_single]; change (f_match_simplify fc) with true; cbn [andb is_inst];
-       prim_unfold;
-       repeat match goal with |- context [hnf fc ?k ?q] => rewrite (hnf_noninst fc k q eq_refl) end;
-       destruct (hnf fc n i) as [hi|]; [|lazy beta iota zeta delta [bind]; reflexivity];
-       destruct hi; lazy beta iota zeta delta [bind fst snd negb];
-       repeat match goal with
-              | |- context [src_match_single ?k ?a ?b ?c] => rewrite (IH a b c)
-              | |- context [N.eqb ?a ?b] => destruct (N.eqb a b); lazy beta iota zeta delta [bind fst snd negb]
-              | |- context [match_single fc ?k ?a ?b ?c] => destruct (match_single fc k a b c) as [[?|]|]; lazy beta iota zeta delta [bind fst snd negb]
-              end; try reflexivity.
+    rewrite src_instantiate_eq. destruct (py_inst fc n p d); cbn [bind]; [apply IH|reflexivity].
 Qed.
 
 Theorem src_match_eq n eqs : src_match n eqs = match_list fc n eqs [].
